@@ -38,7 +38,7 @@ Dom(k, L) ==
       [] k = "order"     -> {"sorted", "reversed"}
       [] k = "eol"       -> {"lf", "crlf", "cr"}
       \* where /Count and the kids are spread: one branch or two branches of the tree
-      [] k = "count"     -> {"chain", "branches"}
+      [] k = "count"     -> {"chain", "branches", "uneven"}    \* "uneven": the last page is a kid of the root, the others sit deeper
 
 VARIABLES L, step
 vars == <<L, step>>
